@@ -172,6 +172,85 @@ def _calls(f, row, callee):
     return ids
 
 
+def _loop_var(m, f, row):
+    """the loop-carried variable that a loop keeps transforming with row['loop_callee'] (trip count loaded from row['trip_table']):
+    -> (header phi, index of the block the loop is left to, witness text from the tables)"""
+    from . import tables
+    found = []
+    for c in f.all_insts():
+        if c.op != "call" or c.callee != row["loop_callee"] or not c.ops:
+            continue
+        x = c.ops[0]
+        while x[0] == "i" and f.insts[x[1]].op in ("sext", "zext", "trunc", "freeze"):
+            x = f.insts[x[1]].ops[0]
+        if x[0] != "i" or f.insts[x[1]].op != "phi":
+            continue
+        P = f.insts[x[1]]
+        back = False
+        for o in P.ops:
+            while o[0] == "i" and f.insts[o[1]].op in ("sext", "zext", "trunc", "freeze"):
+                o = f.insts[o[1]].ops[0]
+            if o[0] == "i" and o[1] == c.id:
+                back = True
+        if not back:
+            continue
+        H = P.block
+        t = H.term
+        if t.op != "br" or len(t.ops) != 3 or t.ops[0][0] != "i":
+            continue
+        cond = f.insts[t.ops[0][1]]
+        trip = None
+        for o in cond.ops if cond.op == "icmp" else []:
+            while o[0] == "i" and f.insts[o[1]].op in ("sext", "zext", "trunc", "freeze"):
+                o = f.insts[o[1]].ops[0]
+            if o[0] == "i" and f.insts[o[1]].op == "load":
+                base, _p = ir.field_path(m, f, f.insts[o[1]].ops[0])
+                if base[0] == "g" and base[1].split(".")[0] == row["trip_table"]:
+                    trip = base[1]
+        if trip is None:
+            continue
+        def reaches(a_, b_):
+            seen, todo = set(), [a_]
+            while todo:
+                y = todo.pop()
+                if y == b_:
+                    return True
+                if y in seen or y == H.idx:
+                    continue
+                seen.add(y)
+                todo += f.blocks[y].succs()
+            return False
+        exits = [sx for sx in t.succs() if not reaches(sx, c.block.idx)]
+        if len(exits) != 1:
+            continue
+        found.append((P, exits[0], trip))
+    if len(found) != 1:
+        raise AnalysisBroken("row %s: expected one loop in %s that applies %s a number of times loaded from %s, found %d"
+                             % (row["id"], f.name, row["loop_callee"], row["trip_table"], len(found)))
+    P, ex_, trip = found[0]
+    # attainability from the tables themselves: (row, column) pairs whose rotated column is the value
+    wit = ""
+    try:
+        T = tables.Tables(m).get(trip)
+        mp, _dflt = tables.switch_map(m, row["loop_callee"])
+        pairs = []
+        for r_, rowv in enumerate(T):
+            for d, n in enumerate(rowv):
+                if d == 0 or n < 0:
+                    continue
+                v = d
+                for _ in range(n):
+                    v = mp.get(v, v)
+                if v == row["value"]:
+                    pairs.append((r_, d))
+        if not pairs:
+            raise AnalysisBroken("row %s: no entry of %s rotates a direction onto %d: the case is unattainable, the row is stale" % (row["id"], trip, row["value"]))
+        wit = " (attained for %d table entries, e.g. %s[%d][%d])" % (len(pairs), trip, pairs[0][0], pairs[0][1])
+    except KeyError:
+        pass
+    return P, ex_, wit
+
+
 def _given(m, f, row, assume, assume_def):
     for g in row.get("given", []):
         if "param" in g:
@@ -304,6 +383,11 @@ def expand(m, f, row):
             a = dict(base_a)
             a[("rel",) + pr] = frozenset(rel)
             runs.append(("%s %s %s" % (row["param"], rel, row["local"]), a, dict(base_d), (pr,), None))
+    elif kind == "loop_value":
+        P, exit_block, wit = _loop_var(m, f, row)
+        a = dict(base_a)
+        a[("i", P.id)] = const(row["value"], int(P.type[1:]))
+        runs.append(("the value transformed by the %s loop is %d when the loop is left%s" % (row["loop_callee"], row["value"], wit), a, dict(base_d), (), exit_block))
     elif kind == "given_only":
         runs.append(("all listed conditions hold", dict(base_a), dict(base_d), (), None))
     else:
